@@ -192,6 +192,8 @@ def addr_ext(o):
 
 
 R = {}
+R['MsgAddressInt'] = addr_int
+R['MsgAddressExt'] = addr_ext
 R['ExtraCurrencyCollection'] = rec(('dict', 'dict', DICT(I)))
 R['CurrencyCollection'] = rec(('grams', 'grams', I), ('other', 'other', R['ExtraCurrencyCollection']))
 CC = R['CurrencyCollection']
@@ -206,6 +208,7 @@ R['CommonMsgInfo'] = alts(lambda o: type(o).__name__, {
 })
 R['Message'] = rec(('info', 'info', R['CommonMsgInfo']), ('init', 'init', MAYBE(EITHER(R['StateInit']))), ('body', 'body', EITHER(CELL)))
 MSG = R['Message']
+R['MessageRef'] = MSG
 R['AccountStatus'] = by_type({'uninitialized': ('acc_state_uninit', NONE), 'frozen': ('acc_state_frozen', NONE),
                               'active': ('acc_state_active', NONE), 'nonexist': ('acc_state_nonexist', NONE)})
 R['HashUpdate'] = rec(('old_hash', 'old_hash', BITS), ('new_hash', 'new_hash', BITS))
@@ -405,6 +408,8 @@ READERS = R
 def parsers():
     from pytoniq_core.tlb import transaction as T, account as A, block as B, config as C, utils as U
     P = {
+        'MsgAddressInt': lambda s: s.load_address(), 'MsgAddressExt': lambda s: s.load_address(),
+        'CommonMsgInfo': T.CommonMsgInfo.deserialize, 'MessageRef': lambda s: T.MessageAny.deserialize(s.load_ref().begin_parse()),
         'CurrencyCollection': B.CurrencyCollection.deserialize, 'ExtraCurrencyCollection': B.ExtraCurrencyCollection.deserialize,
         'TickTock': A.TickTock.deserialize, 'StateInit': A.StateInit.deserialize,
         'AccountStatus': A.AccountStatus.deserialize, 'HashUpdate': U.HashUpdate.deserialize, 'StorageUsed': A.StorageUsed.deserialize,
